@@ -339,6 +339,9 @@ def run_scheduled(tdir, argv, script, choices, session='default_run'):
                 install_threading(shim)
                 cs.time = _TimeShim(sc, real_time)
                 def fake_input(*a):
+                    # like the real input() when stdin / stdout are not terminals: a prompt goes to standard output
+                    if a and a[0]:
+                        sys.stdout.write(str(a[0]))
                     if o.consumed and o.consumed[-1] == 'q' and o.exit_write is None:
                         o.q_dropped = True
                     sc.point(1, 'input')
